@@ -797,7 +797,10 @@ static sexp make_opcode_procedure (sexp ctx, sexp op, sexp_uint_t i, sexp_sint_t
     if (sexp_opcode_proc(op)) return sexp_opcode_proc(op);
   } else if (j < sexp_opcode_num_args(op)) {
     return sexp_compile_error(ctx, "not enough args for opcode", op);
-  } else if (! sexp_opcode_variadic_p(op)) { /* i > num_args */
+  } else if (! sexp_opcode_variadic_p(op) /* i > num_args */
+             || ((j > sexp_opcode_num_args(op) + 1)
+                 && (sexp_opcode_class(op) != SEXP_OPC_ARITHMETIC)
+                 && (sexp_opcode_class(op) != SEXP_OPC_ARITHMETIC_CMP))) {
     return sexp_compile_error(ctx, "too many args for opcode", op);
   }
   sexp_gc_preserve6(ctx, bc, params, ref, refs, lambda, ctx2);
